@@ -133,6 +133,8 @@ func (b *Built) build(s *Spec) (res error) {
 		return &errorspb.TestError{}
 	case "uoptleaf":
 		return &UOpt{S(0), nil}
+	case "uleafas":
+		return &ULeafAs{S(0), &ULeafPtr{"as:" + S(0)}}
 
 	// wrappers
 	case "wrap":
@@ -160,9 +162,14 @@ func (b *Built) build(s *Spec) (res error) {
 	case "tags":
 		ctx := context.Background()
 		for i := 0; i*2 < len(s.S); i++ {
-			if s.I[i] == 1 {
+			switch s.I[i] {
+			case 1:
 				ctx = logtags.AddTag(ctx, S(2*i), nil)
-			} else {
+			case 2:
+				ctx = logtags.AddTag(ctx, S(2*i), redact.SafeString(S(2*i+1)))
+			case 3:
+				ctx = logtags.AddTag(ctx, S(2*i), len(S(2*i+1)))
+			default:
 				ctx = logtags.AddTag(ctx, S(2*i), S(2*i+1))
 			}
 		}
@@ -239,6 +246,10 @@ func (b *Built) build(s *Spec) (res error) {
 		return &UWrapFmtOld{S(0), c}
 	case "rwrapfull":
 		return &RWrapFull{S(0), c}
+	case "uwrapasself":
+		return &UWrapAsSelf{S(0), c, &UWrapAsSelf{"from As method", c, nil}}
+	case "newfwerr":
+		return errors.Newf("lit "+esc(S(0))+" e=%v: %w", xs[0], c)
 	case "uhinter":
 		return &UWrapHinter{S(0), S(1), c}
 
@@ -253,6 +264,8 @@ func (b *Built) build(s *Spec) (res error) {
 		return &UMulti{S(0), xs}
 	case "rmulti":
 		return &RMulti{S(0), xs}
+	case "umulticause":
+		return &UMultiCause{S(0), xs}
 	}
 	panic("unknown kind " + s.K)
 }
